@@ -11,8 +11,11 @@ import math
 import random
 from fractions import Fraction
 
+import sys
+
 from . import common
 from . import c05_kernel as kl
+from . import c05_tie
 from .common import lst, blit, natlit, qlit
 
 HEADER = """From Coq Require Import List QArith Bool.
@@ -63,6 +66,42 @@ def find_keys(nblocks):
         z += [int(s) for s in sd[us == 0.0]]
         m += [int(s) for s in sd[us >= np.float32(1 - 2 ** -23)]]
     return z, m
+
+
+def run(ctx):
+    """the standard skeleton, plus the source tie (c05_tie.py) just before the verdict is written: the source of mh_step
+    and of the three _standard_transition bodies is translated to Gallina now and proved equal to the model.  A broken
+    source tie alone is no alarm (a refactoring may leave the translated subset); it is named beside a behavioural
+    disagreement only."""
+    finish = ctx.finish
+
+    def finish_with_tie(*a, **kw):
+        built = "coq build (make) failed" not in ctx.broken
+        if built:
+            try:
+                tie = c05_tie.run(ctx, common.REPO)
+            except Exception as ex:      # optional evidence: never turns into an alarm by itself
+                tie = {"translated": [], "lemmas_ok": False, "lemmas": [], "not_tied": {"all": f"{type(ex).__name__}: {ex}"},
+                       "detail": "SOURCE TIE BROKEN: the tie step aborted; the verdict rests on the behavioural correspondence"}
+        else:
+            tie = {"translated": [], "lemmas_ok": False, "lemmas": [], "not_tied": {},
+                   "detail": "not attempted: the Coq build failed"}
+        ctx.cov["source_tie"] = tie
+        for sec in sorted(tie["not_tied"]):
+            ctx.hist("T.source_tie_broken." + sec)
+        ctx.hist("T.source_tie_lemmas", len(tie["lemmas"]))
+        if built and not tie["lemmas_ok"] and ctx.violations:
+            ctx.broken.append("source tie (py2gallina_c05): " + "; ".join(f"{k}: {v}" for k, v in sorted(tie["not_tied"].items(), key=lambda kv: (kv[1].startswith("needs the"), kv[0])))[:600])
+        ctx.extra_tb = getattr(ctx, "extra_tb", []) + [
+            "source tie (advisory): tools/py2gallina_c05.py (Python ast -> Gallina for mh_step and the _standard_transition bodies of "
+            "RWKernel / MHKernel / IWLSKernel; fails closed outside its subset), its library-call table (jnp.isnan -> xisnan, jnp.exp -> "
+            "the exp oracle, jnp.clip(max=) / minimum -> xmin, lax.cond / where -> if, jax.random.uniform -> the uniform oracle, "
+            "model.log_prob / update_state -> pure functions, every other call of the kernel bodies -> an uninterpreted pure function), "
+            "coq/Goose/GenC05Tie.v; result of this run in coverage.source_tie"]
+        return finish(*a, **kw)
+
+    ctx.finish = finish_with_tie
+    return common.run_standard(ctx, sys.modules[__name__])
 
 
 def generate(ctx):
